@@ -94,6 +94,7 @@ type Verdict struct {
 
 	PlanningOK bool
 	PlanError  string
+	Panicked   bool // the engine panicked on this case (recovered in Execute, or the worker process died)
 
 	DataEqual bool // equal as JSON values (object member order ignored)
 	OrderOnly bool // equal as values but the member order differs from CollectFields order (informational)
@@ -118,6 +119,9 @@ func (v *Verdict) ErrorsIff() bool { return v.GatewayErrors == v.RefErrors }
 // Failed lists the failed clauses in a fixed order.
 func (v *Verdict) Failed() []string {
 	var out []string
+	if v.Panicked {
+		return []string{"no_panic"}
+	}
 	if !v.PlanningOK {
 		return []string{"planning_never_fails"}
 	}
@@ -171,6 +175,10 @@ func Check(lab *Lab, opText, opName string, variables []byte, ro *RunOptions) *V
 	}
 	if res.Err != nil {
 		v.PlanError = res.Err.Error()
+		if strings.HasPrefix(v.PlanError, "panic in Execute") {
+			v.Panicked = true
+			return v
+		}
 		if verr := lab.Validate(opText); verr != nil {
 			// the repo's own validator rejects the operation: a generator defect (or a validator
 			// one), not a planning failure
